@@ -37,6 +37,7 @@ func (f fcfg) String() string {
 func (f fcfg) eligible(st xmpp.SessionState) bool { return st&f.nec == f.nec && st&f.proh == 0 }
 
 type fev struct {
+	alien  bool   // parse: the element handed to Parse does not have the feature's name
 	kind   string // list, parse, negotiate
 	ns     string
 	state  xmpp.SessionState
@@ -112,12 +113,13 @@ func (sd *c01Side) feature(rc *RC, f fcfg) xmpp.StreamFeature {
 				if st, ok := tok.(xml.StartElement); ok && st.Name.Local == "required" {
 					req = true
 				}
-				if en, ok := tok.(xml.EndElement); ok && en.Name.Local == "f" {
+				if en, ok := tok.(xml.EndElement); ok && en.Name.Local == start.Name.Local {
 					break
 				}
 			}
 			v := ev("parse", nil)
 			v.req = req
+			v.alien = start.Name.Local != "f"
 			sd.log = append(sd.log, v)
 			return req, nil, nil
 		},
@@ -312,10 +314,14 @@ func runC01(rc *RC) {
 			sb.WriteString(`<stream:features>`)
 		}
 		for _, f := range fs {
+			el := "f"
+			if f.idx == 97 {
+				el = "g" // another element of a feature's namespace: not that feature
+			}
 			if f.req {
-				fmt.Fprintf(&sb, `<f xmlns='%s'><required/></f>`, f.ns)
+				fmt.Fprintf(&sb, `<%s xmlns='%s'><required/></%s>`, el, f.ns, el)
 			} else {
-				fmt.Fprintf(&sb, `<f xmlns='%s'/>`, f.ns)
+				fmt.Fprintf(&sb, `<%s xmlns='%s'/>`, el, f.ns)
 			}
 		}
 		if ws {
@@ -355,12 +361,37 @@ func runC01(rc *RC) {
 				if !c01ReadyMode && ch.Chance("script", 1, 8) && len(l) > 0 {
 					l = append(l, l[0]) // repeated advertisement
 				}
+				if !c01ReadyMode && ch.Chance("script", 1, 6) {
+					// an element that shares the namespace of a configured feature which this list does not advertise, under
+					// another name: it advertises nothing the initiator knows
+					var absent []fcfg
+					for _, f := range universe {
+						in := false
+						for _, g := range l {
+							in = in || g.ns == f.ns
+						}
+						if !in {
+							absent = append(absent, f)
+						}
+					}
+					if len(absent) > 0 {
+						g := absent[ch.Int("script", len(absent))]
+						l = append(l, fcfg{idx: 97, ns: g.ns, req: ch.Chance("script", 1, 2)})
+						rc.Fire("namesake-element")
+					}
+				}
 				p := ch.Perm("script", len(l))
 				o := make([]fcfg, len(l))
 				for i, j := range p {
 					o[i] = l[j]
 				}
-				advertised = append(advertised, o)
+				var adv []fcfg
+				for _, f := range o {
+					if f.idx != 97 {
+						adv = append(adv, f)
+					}
+				}
+				advertised = append(advertised, adv)
 				script = append(script, "list "+featXML(o))
 				io.WriteString(S.conn, featXML(o))
 			}
@@ -513,6 +544,12 @@ func runC01(rc *RC) {
 		adv := map[int]map[string]bool{}
 		advReq := map[int]map[string]bool{}
 		for _, e := range sd.log {
+			if e.kind == "parse" && e.alien {
+				// an element of the feature's namespace under another name is not the feature: it advertises nothing
+				rc.Evals["C01.c2"]++
+				rc.Failf("C01.c2", "foreign-element-taken-for-feature:"+sd.name, "%s handed an element that only shares the namespace %s to the feature's Parse: the peer had not advertised that feature", sd.name, e.ns)
+				continue
+			}
 			if e.kind == "list" || e.kind == "parse" {
 				k := e.lists
 				if e.kind == "list" {
